@@ -227,7 +227,7 @@ class C11(runner.Check):
                 'TM.Helpers.C11_event_method_eq_trigger', 'TM.Helpers.C11_event_method_exists',
                 'TM.Helpers.C11_trigger_exists',
                 'TM.Helpers.C11_to_iff_auto', 'TM.Helpers.C11_get_triggers_exact', 'TM.Helpers.C11_get_transitions_exact',
-                'TM.Helpers.C11_get_triggers_nested', 'TM.Helpers.C11_fires_known', 'TM.Helpers.C11_get_transitions_nested',
+                'TM.Helpers.C11_get_triggers_nested', 'TM.Helpers.C11_fires_known', 'TM.Helpers.C11_to_fires_everywhere', 'TM.Helpers.C11_get_transitions_nested',
                 'TM.Helpers.C11_no_overwrite', 'TM.Helpers.C11_override_only_replaces',
                 'TM.Helpers.C11_checked_assignment', 'TM.Helpers.C11_wrapper_binding',
                 'TM.Helpers.C11_trigger_ne_attribute', 'TM.Helpers.C11_names_injective')
